@@ -336,7 +336,8 @@ class GizaCategory(Generic[_I]):
 
         # Check if ref already exists within the same file
         if refs_set is not None:
-            if obj.ref in refs_set:
+            # Entries without a ref (steps may have none) do not share one
+            if obj.ref and obj.ref in refs_set:
                 msg = f"ref {obj.ref} already exists"
                 diagnostics.append(RefAlreadyExists(msg, obj.line))
             elif obj.ref is not None:
